@@ -36,6 +36,14 @@ class PathInferenceError(UndefinedDataTypeError):
         self.valid_dsdl_roots = valid_dsdl_roots[:] if valid_dsdl_roots is not None else None
 
 
+def _resolve_directory(path: Path) -> Path:
+    """
+    Resolves the directory the file resides in but not the directory entry of the file itself, such that a definition file
+    that is a symbolic link keeps the name (and hence the type name, version and port-ID) it has in its own directory.
+    """
+    return path.parent.resolve(strict=False) / path.name
+
+
 class DSDLDefinition(ReadableDSDLFile):
     """
     A DSDL type definition source abstracts the filesystem level details away, presenting a higher-level
@@ -88,7 +96,7 @@ class DSDLDefinition(ReadableDSDLFile):
 
         # INFERENCE 2: The next easiest inference is when the target path is relative to a known dsdl root. These
         # operations should work with pure paths and not require filesystem access.
-        resolved_dsdl_path = dsdl_path.resolve(strict=False) if dsdl_path.is_absolute() else None
+        resolved_dsdl_path = _resolve_directory(dsdl_path) if dsdl_path.is_absolute() else None
         for path_to_root in valid_dsdl_roots:
             # First we try the paths as-is...
             try:
@@ -157,23 +165,23 @@ class DSDLDefinition(ReadableDSDLFile):
         """
         root_path = cls._infer_path_to_root_from_first_found(dsdl_path, valid_dsdl_roots)
         if dsdl_path.is_absolute():
-            dsdl_path_resolved = dsdl_path.resolve(strict=False)
+            dsdl_path_resolved = _resolve_directory(dsdl_path)
         else:
             try:
                 _ = dsdl_path.relative_to(root_path)
             except ValueError:
                 # The root lies elsewhere and the relative target was found under the parent of that root.
-                dsdl_path_resolved = (root_path.parent / dsdl_path).resolve(strict=False)
+                dsdl_path_resolved = _resolve_directory(root_path.parent / dsdl_path)
             else:
                 # The root is a leading part of the relative target, so the target is relative to the same directory
                 # as the root (the current working directory) and shall not be welded to the parent of the root again.
-                dsdl_path_resolved = dsdl_path.resolve(strict=False)
+                dsdl_path_resolved = _resolve_directory(dsdl_path)
         return cls(dsdl_path_resolved, root_path)
 
     def __init__(self, file_path: Path, root_namespace_path: Path):
         """ """
         # Normalizing the path and reading the definition text
-        self._file_path = Path(file_path).resolve()
+        self._file_path = _resolve_directory(Path(file_path))
         del file_path
 
         if not self._file_path.exists():
